@@ -2172,9 +2172,12 @@ let k_jitcount =
           (Div, (EVar
           ('b'::('i'::('n'::('_'::('s'::('i'::('z'::('e'::[]))))))))), (EInt
           (Zpos (XO XH))))))))))) :: ((SIf ((S (S (S (S (S O))))), (ECmp
-          (Gt0, (EVar ('x'::('p'::('o'::('s'::[]))))), (ERead1 ((S (S (S (S
-          (S (S (S (S (S (S O)))))))))), ('e'::('n'::('d'::('s'::[])))),
-          (EVar ('k'::[])))))), (seq (SBreak :: [])),
+          (Gt0, (EUn (Round9, (EBin (Add, (EBin (Mul, (EInt (Zpos (XO XH))),
+          (EVar ('l'::('b'::('o'::('u'::('n'::('d'::[]))))))))), (EVar
+          ('b'::('i'::('n'::('_'::('s'::('i'::('z'::('e'::[]))))))))))))),
+          (EBin (Mul, (EInt (Zpos (XO XH))), (ERead1 ((S (S (S (S (S (S (S (S
+          (S (S O)))))))))), ('e'::('n'::('d'::('s'::[])))), (EVar
+          ('k'::[])))))))), (seq (SBreak :: [])),
           (seq ((SStore1 ((S (S (S (S (S (S (S (S (S (S (S O))))))))))),
             ('b'::('i'::('n'::('s'::[])))), (EVar ('b'::[])), (EVar
             ('x'::('p'::('o'::('s'::[]))))))) :: ((SAssign
@@ -2561,9 +2564,12 @@ let k__jitbin_array =
           (Div, (EVar
           ('b'::('i'::('n'::('_'::('s'::('i'::('z'::('e'::[]))))))))), (EInt
           (Zpos (XO XH))))))))))) :: ((SIf ((S (S (S (S O)))), (ECmp (Gt0,
-          (EVar ('x'::('p'::('o'::('s'::[]))))), (ERead1 ((S (S (S (S (S (S
-          (S (S (S O))))))))), ('e'::('n'::('d'::('s'::[])))), (EVar
-          ('k'::[])))))), (seq (SBreak :: [])),
+          (EUn (Round9, (EBin (Add, (EBin (Mul, (EInt (Zpos (XO XH))), (EVar
+          ('l'::('b'::('o'::('u'::('n'::('d'::[]))))))))), (EVar
+          ('b'::('i'::('n'::('_'::('s'::('i'::('z'::('e'::[]))))))))))))),
+          (EBin (Mul, (EInt (Zpos (XO XH))), (ERead1 ((S (S (S (S (S (S (S (S
+          (S O))))))))), ('e'::('n'::('d'::('s'::[])))), (EVar
+          ('k'::[])))))))), (seq (SBreak :: [])),
           (seq ((SStore1 ((S (S (S (S (S (S (S (S (S (S O)))))))))),
             ('b'::('i'::('n'::('s'::[])))), (EVar ('b'::[])), (EVar
             ('x'::('p'::('o'::('s'::[]))))))) :: ((SAssign
